@@ -151,6 +151,23 @@ def substitutions(rng, syms, free, eg, real):
             out.append(Sub("pairs_some", ([(s, eg.number() if rng.random() < 0.6 else eg.affine())
                                            for s in rng.sample(free, k)], ), False))
         out.append(Sub("dict_like_pairs", (tuple((s, eg.number(allow_float=False)) for s in free), ), True))
+        if len(free) >= 2:
+            # chained pairs: sympy applies a LIST of pairs in the order given, so an image may
+            # mention a symbol substituted later: [(a, b + 1), (b, 1/4)] closes the diagram
+            order = list(free)
+            rng.shuffle(order)
+            chained = []
+            for i, sym in enumerate(order):
+                later = order[i + 1:]
+                if later and rng.random() < 0.7:
+                    chained.append((sym, rng.choice(later) * rng.choice([1, 2, -1])
+                                    + rng.choice([0, 1, sympy.Rational(1, 2)])))
+                else:
+                    chained.append((sym, eg.number(allow_float=False)))
+            chained[-1] = (order[-1], eg.number(allow_float=False))
+            out.append(Sub("pairs_chained", (chained, ), True))
+            # and in the order opposite to sympy's canonical one
+            out.append(Sub("pairs_chained", (list(chained), ), True))
     other = [s for s in syms if s not in free]
     if other:
         out.append(Sub("absent", (rng.choice(other), eg.number()), not free))
